@@ -1,6 +1,86 @@
-(* AttrProofs.v -- the attribute phase of the differ (Differ.update_node_attr,
-   model: Differ.upd_attr).  HEADER IS COMPLETED AT THE END OF THE FILE'S
-   DEVELOPMENT; see the summary comment below. *)
+(* AttrProofs.v -- the attribute phase of the differ.
+
+   Python: Differ.update_node_attr / node_attribs (xmldiff/diff.py).
+   Model:  Differ.upd_attr (validated by differential testing).
+   Spec:   the attribute cases of Spec.spec_apply (strict, documented meaning).
+   Every theorem below is closed under the global context (Print Assumptions).
+
+   NOTATION.  ign = ignored attribute names; la / ra = attribute lists (document
+   order) of the left / right node, keys pairwise distinct (NoDup (map fst _));
+   aeq l l' := forall k, aget l k = aget l' k   (equal as finite maps / dicts).
+
+   DEFINITIONS
+     attr_act            AUpd k v | AIns k v | ADel k | ARen old new
+     lift n a            the iact (IUpdAttr n .. etc.) on node n
+     act_keys a          every attribute name the action mentions
+     strict_attr_apply   documented meaning on an attribute list; None when a
+                         precondition fails (update/delete: present; insert:
+                         absent; rename: old present, new absent)
+     run_strict          iterates strict_attr_apply
+     changes l l'        exists k, aget l k <> aget l' k
+     eff_run l acts l'   every action of acts is strictly applicable in turn AND
+                         changes the map; the run leads from l to l'
+     attr_run ign la ra  PURE mirror of upd_attr: record pst = (pacts, pcur, perr)
+     attr_script ign la ra = (pacts p, pcur p)  for p := attr_run ign la ra
+     apply_w n w a       the forest after the differ's mutation for action a
+     attr_frame n w w'   kids, fnext, labels of other nodes, tag/text/tail of n equal
+
+   EXPORTED THEOREMS (plain words)
+
+   Section 1-2 (reusable): str_eqb_spec / str_eqb_eq / str_eqb_neq / str_eqb_sym
+     (str_eqb reflects equality), str_dec; smem_In / smem_false / smem_spec;
+     str_ltb_irrefl/trans/trich, str_leb_refl/total/antisym/trans (code-point order
+     is a total order); sort_strs_perm / _In / _NoDup / _length / _sorted,
+     sort_strs_perm_eq (sorted() of a permutation is the SAME list),
+     sort_strs_set_eq; aget_None, aget_Some_key, aget_Some_In, In_aget, ahas_In,
+     aget_app, aget_aput (d[k]=v; d.get(k')), aget_adel (del d[k]; d.get(k')),
+     aput_NoDup, adel_NoDup, aput_aeq, adel_aeq, aget_perm, aeq_perm,
+     aget_node_attribs, node_attribs_In, node_attribs_NoDup.
+
+   spec_apply_lift: on an alive element node n,
+     spec_apply root f (lift n a) = option_map (set_attrs_f f n) (strict_attr_apply (attrs of n) a)
+     i.e. strict_attr_apply COINCIDES with Spec.spec_apply's attribute cases.
+   run_spec_lift / run_checked_lift: a strictly applicable (resp. effective) attribute
+     script on an alive element node passes Spec.run_spec (resp. Spec.run_checked) and
+     yields (Leibniz) fold_left (apply_w n) acts f.
+
+   upd_attr_lift (NO hypotheses): upd_attr ign R s ln rn is attr_run lifted to the state:
+     out = out s ++ map (lift ln) acts; W = fold_left (apply_w ln) acts (W s);
+     cur_attrs _ ln = final; serr = serr s || perr; l2r, r2l, inoL, inoR unchanged.
+
+   attr_run_sound / attr_script_sound (la, ra NoDup-keyed, any ign): for
+     (acts, final) = attr_script ign la ra
+       - perr = false (the model's KeyError branches are unreachable)
+       - run_strict la acts = Some final      (C05: every action applicable as documented)
+       - NoDup (map fst final)
+       - forall k not in ign, aget final k = aget ra k            (C01)
+       - forall k in ign,     aget final k = aget la k            (C13: untouched)
+       - no action mentions a name in ign (and every mentioned name is an attribute
+         of la or ra)                                              (C13)
+       - eff_run la acts final; explicitly: for every split acts = pre ++ a :: post the
+         action a is strictly applicable to the map m reached after pre, and the map m'
+         after it satisfies changes m m' and m <> m'              (C05 + C17)
+       - length acts <= |left_keys| + |new_keys| <= length la + length ra   (C17)
+         (the bound "max" is false: a=1 vs b=2 gives 2 actions)
+     NOTHING is partial: all clauses hold of the model without extra hypotheses.
+
+   upd_attr_correct, upd_attr_run_spec, upd_attr_final, upd_attr_final_sorted: the same
+     facts stated on the differ state (serr unchanged; run_spec / run_checked of the emitted
+     actions from W s give exactly W (upd_attr ..); final non-ignored attributes equal the
+     right node's, also in the sort_attrs form used by Forest.label_equivb).
+
+   C06 / order independence:
+     attr_set_order_independent: enumerating the Python SETS common/removed/new keys in any
+       order gives literally the same result (every loop runs over sorted(...)).
+     attr_order_independent: permuting la changes neither the emitted actions nor the final
+       map (final lists are permutations of each other).
+     attr_run_congr: attr_run depends on la, ra only through the maps they denote and
+       through newattrmap.
+     attr_order_right_final: permuting ra does not change the final map.
+     attr_order_right_counterexample: permuting ra CAN change the actions (a=1 vs b=1,c=1:
+       the LATER new key with the value wins the rename) -- deterministic document order.
+     attr_order_right_acts / attr_order_right_distinct: the actions are unchanged when
+       newattrmap is, in particular when the new right attributes have distinct values. *)
 From Coq Require Import List NArith ZArith Bool Arith Lia Permutation Sorted.
 Import ListNotations.
 Require Import XV.Str XV.Forest XV.LCS XV.Matcher XV.Differ XV.Spec.
@@ -1603,3 +1683,366 @@ Proof.
   intros NDl NDr. destruct (upd_attr_final ign R s ln rn NDl NDr) as (F1 & _ & _ & F4).
   apply sort_attrs_aeq; [apply node_attribs_NoDup, F1|apply node_attribs_NoDup, NDr|exact F4].
 Qed.
+
+(* ====================================================================== *)
+(** * 8. Independence of iteration order (C06)                             *)
+(* ====================================================================== *)
+
+(* same emitted actions, same failure flag, same final attributes as a finite map *)
+Definition peq (p p' : pst) : Prop :=
+  pacts p = pacts p' /\ aeq (pcur p) (pcur p') /\ perr p = perr p'.
+
+Lemma peq_refl p : peq p p.
+Proof. repeat split. Qed.
+
+Lemma upd_step_peq ra ra' p p' k :
+  aeq ra ra' -> peq p p' -> peq (upd_step ra p k) (upd_step ra' p' k).
+Proof.
+  intros Hra (H1 & H2 & H3). unfold upd_step. rewrite (H2 k), (Hra k).
+  destruct (aget (pcur p') k) as [a|]; [|unfold peq; cbn [pacts pcur perr]; auto].
+  destruct (aget ra' k) as [b|]; [|unfold peq; cbn [pacts pcur perr]; auto].
+  destruct (str_eqb a b); [unfold peq; auto|].
+  unfold peq. cbn [pacts pcur perr]. rewrite H1. split; [reflexivity|].
+  split; [apply aput_aeq, H2|exact H3].
+Qed.
+
+Lemma Permutation_filter' {A} (f : A -> bool) (l l' : list A) :
+  Permutation l l' -> Permutation (filter f l) (filter f l').
+Proof.
+  intros H. induction H as [|x l l' H IH|x y l|l l' l'' H1 IH1 H2 IH2]; cbn [filter].
+  - constructor.
+  - destruct (f x); [apply perm_skip|]; exact IH.
+  - destruct (f x), (f y); try reflexivity. apply perm_swap.
+  - etransitivity; eassumption.
+Qed.
+
+Definition req (x y : pst * list str * list (str * str)) : Prop :=
+  peq (fst (fst x)) (fst (fst y)) /\ Permutation (snd (fst x)) (snd (fst y)) /\ aeq (snd x) (snd y).
+
+Lemma ren_step_req x y k : req x y -> req (ren_step x k) (ren_step y k).
+Proof.
+  destruct x as [[p nk] nm], y as [[p' nk'] nm']. intros ((H1 & H2 & H3) & HP & HM).
+  cbn [fst snd] in *. unfold ren_step. rewrite (H2 k).
+  destruct (aget (pcur p') k) as [v|].
+  - rewrite (HM v). destruct (aget nm' v) as [rk_|].
+    + unfold req, peq. cbn [fst snd pacts pcur perr]. rewrite H1.
+      split; [split; [reflexivity|split; [apply adel_aeq, aput_aeq, H2|exact H3]]|].
+      split; [apply Permutation_filter', HP|apply adel_aeq, HM].
+    + unfold req, peq. cbn [fst snd]. auto.
+  - unfold req, peq. cbn [fst snd pacts pcur perr]. auto.
+Qed.
+
+Lemma ins_step_peq ra ra' p p' k :
+  aeq ra ra' -> peq p p' -> peq (ins_step ra p k) (ins_step ra' p' k).
+Proof.
+  intros Hra (H1 & H2 & H3). unfold ins_step. rewrite (Hra k).
+  destruct (aget ra' k) as [b|]; unfold peq; cbn [pacts pcur perr]; [|auto].
+  rewrite H1. split; [reflexivity|]. split; [apply aput_aeq, H2|exact H3].
+Qed.
+
+Lemma del_step_peq p p' k : peq p p' -> peq (del_step p k) (del_step p' k).
+Proof.
+  intros (H1 & H2 & H3). unfold del_step. rewrite (ahas_aeq _ _ k H2).
+  destruct (ahas (pcur p') k); unfold peq; cbn [pacts pcur perr]; [|auto].
+  rewrite H1. split; [reflexivity|]. split; [apply adel_aeq, H2|exact H3].
+Qed.
+
+Lemma left_keys_perm ign l l' :
+  NoDup (map fst l) -> NoDup (map fst l') -> aeq l l' ->
+  Permutation (left_keys ign l) (left_keys ign l').
+Proof.
+  intros ND ND' H. apply NoDup_Permutation; try (apply left_keys_NoDup; assumption).
+  intros k. rewrite !left_keys_In, (aeq_keys l l' k H). reflexivity.
+Qed.
+
+(* the general congruence: attr_run depends on the two attribute lists only
+   through the finite maps they denote and through the value->key map
+   newattrmap (the only place where the right node's document order matters) *)
+Theorem attr_run_congr ign la la' ra ra' :
+  NoDup (map fst la) -> NoDup (map fst la') -> NoDup (map fst ra) -> NoDup (map fst ra') ->
+  aeq la la' -> aeq ra ra' ->
+  aeq (newattrmap ra (new_keys ign la ra)) (newattrmap ra' (new_keys ign la' ra')) ->
+  peq (attr_run ign la ra) (attr_run ign la' ra').
+Proof.
+  intros NDl NDl' NDr NDr' Hl Hr Hmap. unfold attr_run. cbv zeta.
+  pose proof (left_keys_perm ign la la' NDl NDl' Hl) as Plk.
+  pose proof (left_keys_perm ign ra ra' NDr NDr' Hr) as Prk.
+  assert (In_lk : forall k, In k (left_keys ign la) <-> In k (left_keys ign la'))
+    by (intros k; split; apply Permutation_in; [|symmetry]; exact Plk).
+  assert (In_rk : forall k, In k (left_keys ign ra) <-> In k (left_keys ign ra'))
+    by (intros k; split; apply Permutation_in; [|symmetry]; exact Prk).
+  assert (Pcom : Permutation (common_keys ign la ra) (common_keys ign la' ra')).
+  { apply NoDup_Permutation; try (apply NoDup_filter', left_keys_NoDup; assumption).
+    intros k. rewrite !common_keys_In, In_lk, In_rk. reflexivity. }
+  assert (Prem : Permutation (removed_keys ign la ra) (removed_keys ign la' ra')).
+  { apply NoDup_Permutation; try (apply NoDup_filter', left_keys_NoDup; assumption).
+    intros k. rewrite !removed_keys_In, In_lk, In_rk. reflexivity. }
+  assert (Pnew : Permutation (new_keys ign la ra) (new_keys ign la' ra')).
+  { apply NoDup_Permutation; try (apply NoDup_filter', left_keys_NoDup; assumption).
+    intros k. rewrite !new_keys_In, In_lk, In_rk. reflexivity. }
+  rewrite <- (sort_strs_perm_eq _ _ Pcom), <- (sort_strs_perm_eq _ _ Prem).
+  (* phase 1 *)
+  assert (L1 : peq (fold_left (upd_step ra) (sort_strs (common_keys ign la ra)) (P [] la false))
+                   (fold_left (upd_step ra') (sort_strs (common_keys ign la ra)) (P [] la' false))).
+  { apply (fold_left_rel peq).
+    - intros a b k Hab. apply upd_step_peq; assumption.
+    - unfold peq. cbn [pacts pcur perr]. auto. }
+  (* phase 2 *)
+  assert (L2 : req (fold_left ren_step (sort_strs (removed_keys ign la ra))
+                      (fold_left (upd_step ra) (sort_strs (common_keys ign la ra)) (P [] la false),
+                       new_keys ign la ra, newattrmap ra (new_keys ign la ra)))
+                   (fold_left ren_step (sort_strs (removed_keys ign la ra))
+                      (fold_left (upd_step ra') (sort_strs (common_keys ign la ra)) (P [] la' false),
+                       new_keys ign la' ra', newattrmap ra' (new_keys ign la' ra')))).
+  { apply (fold_left_rel req).
+    - intros a b k Hab. apply ren_step_req, Hab.
+    - unfold req. cbn [fst snd]. auto. }
+  destruct (fold_left ren_step _ _) as [[p2 nk2] nm2].
+  destruct (fold_left ren_step _ _) as [[p2' nk2'] nm2'].
+  destruct L2 as (L2 & Pnk2 & _). cbn [fst snd] in L2, Pnk2.
+  rewrite <- (sort_strs_perm_eq _ _ Pnk2).
+  (* phases 3 and 4 *)
+  apply (fold_left_rel peq); [intros a b k Hab; apply del_step_peq, Hab|].
+  apply (fold_left_rel peq); [intros a b k Hab; apply ins_step_peq; assumption|exact L2].
+Qed.
+
+(* C06, left side: the document order of the LEFT node's attributes influences
+   neither the emitted actions nor the final attribute map *)
+Theorem attr_order_independent ign la la' ra :
+  NoDup (map fst la) -> NoDup (map fst ra) -> Permutation la la' ->
+  fst (attr_script ign la ra) = fst (attr_script ign la' ra) /\
+  aeq (snd (attr_script ign la ra)) (snd (attr_script ign la' ra)) /\
+  Permutation (snd (attr_script ign la ra)) (snd (attr_script ign la' ra)).
+Proof.
+  intros NDl NDr HP.
+  assert (NDl' : NoDup (map fst la')).
+  { eapply Permutation_NoDup; [apply Permutation_map; exact HP|exact NDl]. }
+  pose proof (aget_perm la la' NDl HP) as Hl.
+  assert (Enew : new_keys ign la ra = new_keys ign la' ra).
+  { unfold new_keys. apply filter_ext. intros k. f_equal. apply smem_ext.
+    rewrite !left_keys_In, (aeq_keys la la' k Hl). reflexivity. }
+  destruct (attr_run_congr ign la la' ra ra NDl NDl' NDr NDr Hl (aeq_refl ra)) as (H1 & H2 & H3).
+  { rewrite Enew. apply aeq_refl. }
+  unfold attr_script. cbn [fst snd]. split; [exact H1|]. split; [exact H2|].
+  apply aeq_perm; [| |exact H2].
+  - destruct (attr_script_sound ign la ra NDl NDr) as (_ & S & _). exact S.
+  - destruct (attr_script_sound ign la' ra NDl' NDr) as (_ & S & _). exact S.
+Qed.
+
+(* ---- right side ---- *)
+
+(* the final attribute MAP does not depend on the order of the right node's
+   attributes either (a consequence of soundness) ... *)
+Theorem attr_order_right_final ign la ra ra' :
+  NoDup (map fst la) -> NoDup (map fst ra) -> Permutation ra ra' ->
+  aeq (snd (attr_script ign la ra)) (snd (attr_script ign la ra')).
+Proof.
+  intros NDl NDr HP.
+  assert (NDr' : NoDup (map fst ra')).
+  { eapply Permutation_NoDup; [apply Permutation_map; exact HP|exact NDr]. }
+  pose proof (aget_perm ra ra' NDr HP) as Hr.
+  pose proof (attr_script_sound ign la ra NDl NDr) as S.
+  pose proof (attr_script_sound ign la ra' NDl NDr') as S'.
+  unfold attr_script in *. cbn [snd].
+  destruct S as (_ & _ & S3 & S4 & _). destruct S' as (_ & _ & S3' & S4' & _).
+  intros k. destruct (in_dec str_dec k ign) as [Hi|Hi].
+  - rewrite S4, S4' by exact Hi. reflexivity.
+  - rewrite S3, S3' by exact Hi. apply Hr.
+Qed.
+
+(* ... but the emitted ACTIONS may: when two new right attributes carry the value
+   of a removed left attribute, the LATER one (document order of the right node,
+   which is deterministic) becomes the rename target. *)
+Example attr_order_right_counterexample :
+  let a := [97%N] in let b := [98%N] in let c := [99%N] in let one := [49%N] in
+  fst (attr_script [] [(a, one)] [(b, one); (c, one)]) = [ARen a c; AIns b one] /\
+  fst (attr_script [] [(a, one)] [(c, one); (b, one)]) = [ARen a b; AIns c one].
+Proof. vm_compute. split; reflexivity. Qed.
+
+(* the right node's order matters ONLY through newattrmap *)
+Theorem attr_order_right_acts ign la ra ra' :
+  NoDup (map fst la) -> NoDup (map fst ra) -> Permutation ra ra' ->
+  aeq (newattrmap ra (new_keys ign la ra)) (newattrmap ra' (new_keys ign la ra')) ->
+  fst (attr_script ign la ra) = fst (attr_script ign la ra').
+Proof.
+  intros NDl NDr HP Hmap.
+  assert (NDr' : NoDup (map fst ra')).
+  { eapply Permutation_NoDup; [apply Permutation_map; exact HP|exact NDr]. }
+  destruct (attr_run_congr ign la la ra ra' NDl NDl NDr NDr' (aeq_refl la)
+              (aget_perm ra ra' NDr HP) Hmap) as (H1 & _).
+  exact H1.
+Qed.
+
+(* sufficient condition: the new right attributes have pairwise distinct values *)
+Definition new_attrs (ign : list str) (la ra : list (str * str)) : list (str * str) :=
+  filter (fun kv => smem (fst kv) (new_keys ign la ra)) ra.
+
+Lemma newattrmap_complete ra newk k v :
+  In (k, v) ra -> In k newk -> exists k', aget (newattrmap ra newk) v = Some k'.
+Proof.
+  intros HI Hk. unfold newattrmap.
+  assert (G : forall l m, In (k, v) l \/ (exists k', aget m v = Some k') ->
+     exists k', aget (fold_left (fun m kv => if smem (fst kv) newk then aput m (snd kv) (fst kv) else m) l m) v
+                = Some k').
+  { induction l as [|[k0 v0] l IH]; intros m H; cbn [fold_left].
+    - destruct H as [[]|H]; exact H.
+    - apply IH. cbn [fst snd]. destruct H as [[E|H]|[k' H]].
+      + injection E as -> ->. right. apply smem_In in Hk. rewrite Hk.
+        exists k. rewrite aget_aput, str_eqb_refl. reflexivity.
+      + left. exact H.
+      + right. destruct (smem k0 newk); [|eauto]. rewrite aget_aput.
+        destruct (str_eqb v0 v); eauto. }
+  apply G. left. exact HI.
+Qed.
+
+Lemma NoDup_snd_inj (l : list (str * str)) k k' v :
+  NoDup (map snd l) -> In (k, v) l -> In (k', v) l -> k = k'.
+Proof.
+  induction l as [|[k0 v0] l IH]; intros ND H1 H2; [contradiction|].
+  cbn [map snd] in ND. inversion ND as [|? ? Hv ND']; subst.
+  assert (Hin : forall x, In (x, v0) l -> False).
+  { intros x Hx. apply Hv. apply in_map_iff. exists (x, v0). split; [reflexivity|exact Hx]. }
+  destruct H1 as [E1|H1], H2 as [E2|H2].
+  - congruence.
+  - injection E1 as -> ->. exfalso. eapply Hin, H2.
+  - injection E2 as -> ->. exfalso. eapply Hin, H1.
+  - apply IH; assumption.
+Qed.
+
+Lemma newattrmap_char ra newk v k :
+  NoDup (map fst ra) ->
+  NoDup (map snd (filter (fun kv => smem (fst kv) newk) ra)) ->
+  (aget (newattrmap ra newk) v = Some k <-> In (k, v) ra /\ In k newk).
+Proof.
+  intros ND NDv. split.
+  - intros H. destruct (newattrmap_sound ra newk v k ND H) as [H1 H2].
+    split; [apply aget_Some_In, H2|exact H1].
+  - intros [H1 H2]. destruct (newattrmap_complete ra newk k v H1 H2) as [k' Hk'].
+    destruct (newattrmap_sound ra newk v k' ND Hk') as [H3 H4]. apply aget_Some_In in H4.
+    rewrite Hk'. f_equal. eapply NoDup_snd_inj; [exact NDv| |].
+    + apply filter_In. cbn [fst]. split; [exact H4|apply smem_In, H3].
+    + apply filter_In. cbn [fst]. split; [exact H1|apply smem_In, H2].
+Qed.
+
+Theorem attr_order_right_distinct ign la ra ra' :
+  NoDup (map fst la) -> NoDup (map fst ra) -> Permutation ra ra' ->
+  NoDup (map snd (new_attrs ign la ra)) ->
+  fst (attr_script ign la ra) = fst (attr_script ign la ra').
+Proof.
+  intros NDl NDr HP NDv. apply attr_order_right_acts; try assumption.
+  assert (NDr' : NoDup (map fst ra')).
+  { eapply Permutation_NoDup; [apply Permutation_map; exact HP|exact NDr]. }
+  pose proof (aget_perm ra ra' NDr HP) as Hr.
+  assert (Inew : forall k, In k (new_keys ign la ra) <-> In k (new_keys ign la ra')).
+  { intros k. rewrite !new_keys_In, !left_keys_In, (aeq_keys ra ra' k Hr). reflexivity. }
+  assert (NDv' : NoDup (map snd (filter (fun kv => smem (fst kv) (new_keys ign la ra')) ra'))).
+  { eapply Permutation_NoDup; [|exact NDv]. apply Permutation_map. unfold new_attrs.
+    rewrite (filter_ext (fun kv => smem (fst kv) (new_keys ign la ra))
+                        (fun kv => smem (fst kv) (new_keys ign la ra'))).
+    - apply Permutation_filter', HP.
+    - intros kv. apply smem_ext, Inew. }
+  assert (Hin : forall k v, In (k, v) ra <-> In (k, v) ra').
+  { intros k v. split; apply Permutation_in; [|symmetry]; exact HP. }
+  intros v.
+  destruct (aget (newattrmap ra (new_keys ign la ra)) v) as [k|] eqn:E1.
+  - apply (newattrmap_char _ _ _ _ NDr NDv) in E1. symmetry.
+    apply (newattrmap_char _ _ _ _ NDr' NDv'). rewrite <- Hin, <- Inew. exact E1.
+  - destruct (aget (newattrmap ra' (new_keys ign la ra')) v) as [k|] eqn:E2; [|reflexivity].
+    apply (newattrmap_char _ _ _ _ NDr' NDv') in E2. rewrite <- Hin, <- Inew in E2.
+    apply (newattrmap_char _ _ _ _ NDr NDv) in E2. congruence.
+Qed.
+
+(* ---- Python set iteration order ---- *)
+
+(* attr_run with the three key sets enumerated in ARBITRARY orders (Python's
+   set objects common_keys / removed_keys / new_keys have no specified order) *)
+Definition attr_run_on (comk remk newk : list str) (la ra : list (str * str)) : pst :=
+  let p1 := fold_left (upd_step ra) (sort_strs comk) (P [] la false) in
+  let '(p2, newk2, _) := fold_left ren_step (sort_strs remk) (p1, newk, newattrmap ra newk) in
+  let p3 := fold_left (ins_step ra) (sort_strs newk2) p2 in
+  fold_left del_step (sort_strs remk) p3.
+
+Lemma attr_run_on_eq ign la ra :
+  attr_run ign la ra =
+  attr_run_on (common_keys ign la ra) (removed_keys ign la ra) (new_keys ign la ra) la ra.
+Proof. reflexivity. Qed.
+
+Lemma fold_left_ext_fn {A B} (f g : A -> B -> A) :
+  (forall a b, f a b = g a b) -> forall l a, fold_left f l a = fold_left g l a.
+Proof.
+  intros H l. induction l as [|b l IH]; intros a; cbn [fold_left]; [reflexivity|].
+  rewrite H. apply IH.
+Qed.
+
+Lemma newattrmap_perm ra newk newk' :
+  Permutation newk newk' -> newattrmap ra newk = newattrmap ra newk'.
+Proof.
+  intros HP. unfold newattrmap. apply fold_left_ext_fn. intros m kv.
+  rewrite (smem_ext (fst kv) newk newk'); [reflexivity|].
+  split; apply Permutation_in; [|symmetry]; exact HP.
+Qed.
+
+Definition req_strict (x y : pst * list str * list (str * str)) : Prop :=
+  fst (fst x) = fst (fst y) /\ Permutation (snd (fst x)) (snd (fst y)) /\ snd x = snd y.
+
+Lemma ren_step_req_strict x y k : req_strict x y -> req_strict (ren_step x k) (ren_step y k).
+Proof.
+  destruct x as [[p nk] nm], y as [[p' nk'] nm']. intros (H1 & HP & HM).
+  cbn [fst snd] in *. subst p' nm'. unfold ren_step.
+  destruct (aget (pcur p) k) as [v|]; [|unfold req_strict; cbn [fst snd]; auto].
+  destruct (aget nm v) as [rk_|]; unfold req_strict; cbn [fst snd]; [|auto].
+  split; [reflexivity|]. split; [apply Permutation_filter', HP|reflexivity].
+Qed.
+
+(* C06: whatever order the Python sets are iterated in, every loop runs over
+   sorted(...), so the result is literally the same *)
+Theorem attr_set_order_independent comk comk' remk remk' newk newk' la ra :
+  Permutation comk comk' -> Permutation remk remk' -> Permutation newk newk' ->
+  attr_run_on comk remk newk la ra = attr_run_on comk' remk' newk' la ra.
+Proof.
+  intros Pc Pr Pn. unfold attr_run_on. cbv zeta.
+  rewrite <- (sort_strs_perm_eq _ _ Pc), <- (sort_strs_perm_eq _ _ Pr),
+          <- (newattrmap_perm ra _ _ Pn).
+  set (p1 := fold_left (upd_step ra) (sort_strs comk) (P [] la false)).
+  assert (L2 : req_strict (fold_left ren_step (sort_strs remk) (p1, newk, newattrmap ra newk))
+                          (fold_left ren_step (sort_strs remk) (p1, newk', newattrmap ra newk))).
+  { apply (fold_left_rel req_strict).
+    - intros a b k Hab. apply ren_step_req_strict, Hab.
+    - unfold req_strict. cbn [fst snd]. auto. }
+  destruct (fold_left ren_step _ _) as [[p2 nk2] nm2].
+  destruct (fold_left ren_step _ _) as [[p2' nk2'] nm2'].
+  destruct L2 as (E & Pnk2 & _). cbn [fst snd] in E, Pnk2. subst p2'.
+  rewrite <- (sort_strs_perm_eq _ _ Pnk2). reflexivity.
+Qed.
+
+
+(* ====================================================================== *)
+(** * 9. The subtle cases, computed (each was replayed on the Python
+       implementation with main.diff_trees and gives the same script)     *)
+(* ====================================================================== *)
+
+Section Examples.
+Let a := [97%N]. Let b := [98%N]. Let c := [99%N]. Let d := [100%N].
+Let i := [105%N]. Let j := [106%N]. Let n := [110%N]. Let x := [120%N].
+Let one := [49%N]. Let two := [50%N]. Let nine := [57%N].
+
+(* two removed left attributes with the same value, two new right attributes with
+   that value: ONE rename (to the later new key), one insert, one delete *)
+Example ex_same_values :
+  attr_script [] [(a, one); (b, one)] [(c, one); (d, one)]
+  = ([ARen a d; AIns c one; ADel b], [(d, one); (c, one)]).
+Proof. vm_compute. reflexivity. Qed.
+
+(* a value shared between a common key (after its update) and a removed key:
+   newattrmap only contains NEW keys, so no rename happens *)
+Example ex_common_value :
+  attr_script [] [(a, one); (x, two)] [(x, one); (n, two)]
+  = ([AUpd x one; AIns n two; ADel a], [(x, one); (n, two)]).
+Proof. vm_compute. reflexivity. Qed.
+
+(* ignored attributes present on one side only are neither deleted nor inserted *)
+Example ex_ignored :
+  attr_script [i; j] [(a, one); (i, nine)] [(b, one); (j, nine)]
+  = ([ARen a b], [(i, nine); (b, one)]).
+Proof. vm_compute. reflexivity. Qed.
+End Examples.
